@@ -24,6 +24,20 @@ func (c *fnCtx) exprWant(x ast.Expr, e *env, want *Kind) (Val, error) {
 			return c.strConst(lit, *want)
 		}
 	}
+	if want != nil && want.Base == "setval" {
+		// the value stored into a map that is used as a set
+		if cl, ok := x.(*ast.CompositeLit); ok && len(cl.Elts) == 0 {
+			if st, ok := cl.Type.(*ast.StructType); ok && (st.Fields == nil || len(st.Fields.List) == 0) {
+				return Val{S: "tt", K: *want}, nil
+			}
+		}
+		if id, ok := x.(*ast.Ident); ok && id.Name == "true" {
+			if _, _, shadow := e.lookup("true"); !shadow {
+				return Val{S: "true", K: *want}, nil
+			}
+		}
+		return Val{}, c.err(x, "store into a map used as a set of a value other than struct{}{} / true")
+	}
 	if want != nil && want.Base == "slice" {
 		// nil is the empty slice (the difference between nil and empty is not modelled)
 		if id, ok := x.(*ast.Ident); ok && id.Name == "nil" {
@@ -145,7 +159,7 @@ func (c *fnCtx) expr(x ast.Expr, e *env) (Val, error) {
 				return Val{}, c.err(x, "struct value %s used as a whole", x.Name)
 			case "bigopt":
 				return Val{}, c.err(x, "nullable *big.Int used outside a big.Int method call")
-			case "big", "slice":
+			case "big", "slice", "set":
 				return Val{S: v.coq, K: v.kind, Alias: x.Name}, nil
 			case "drop", "ignore", "oracle":
 				return Val{}, c.err(x, "%s is not a value in this translation (table kind %s)", x.Name, v.kind.Base)
@@ -212,6 +226,19 @@ func (c *fnCtx) expr(x ast.Expr, e *env) (Val, error) {
 		if v.K.Base == "slice" {
 			return Val{}, c.err(x, "slice element read in a position that is not evaluated exactly once by its statement")
 		}
+		if v.K.Base == "set" {
+			// m[k] on a map[K]bool into which only `true` is stored: membership
+			if !v.K.BoolMap {
+				return Val{}, c.err(x, "value read from a map[K]struct{}")
+			}
+			c.noMut++
+			kv, err := c.exprKind(x.Index, e, *v.K.Elem)
+			c.noMut--
+			if err != nil {
+				return Val{}, err
+			}
+			return Val{S: fmt.Sprintf("(memN %s %s)", atom(kv.S), atom(v.S)), K: Kind{Base: "bool"}}, nil
+		}
 		if v.K.Base != "range" {
 			return Val{}, c.err(x, "index expression on kind %s", v.K.Base)
 		}
@@ -265,6 +292,11 @@ func (c *fnCtx) expr(x ast.Expr, e *env) (Val, error) {
 				}
 				return v, err
 			}
+			if id, ok := x.X.(*ast.Ident); ok {
+				if v, _, ok := e.lookup(id.Name); ok && v.kind.Base == "record" {
+					return Val{S: v.coq, K: v.kind}, nil // a pointer to a record that is only returned
+				}
+			}
 			return Val{}, c.err(x, "address-of")
 		}
 		switch x.Op {
@@ -308,7 +340,10 @@ func (c *fnCtx) expr(x ast.Expr, e *env) (Val, error) {
 	case *ast.TypeAssertExpr:
 		return Val{}, c.err(x, "type assertion")
 	case *ast.SliceExpr:
-		return Val{}, c.err(x, "slice expression")
+		if hv, ok := c.hoisted[x]; ok {
+			return hv, nil
+		}
+		return Val{}, c.err(x, "slice expression (only s[:] and s[k:] of a slice variable, evaluated once by its statement, are read)")
 	}
 	return Val{}, c.err(x, "expression %T", x)
 }
@@ -321,7 +356,10 @@ func (c *fnCtx) constRef(p *Pkg, name string, at ast.Node) (Val, error) {
 	}
 	ci, ok := p.Consts[name]
 	if !ok {
-		return Val{}, c.err(at, "identifier %s (not a local variable, parameter or constant of package %s)", name, p.Name)
+		if v, ok, err := c.pkgVar(p, name, at); ok || err != nil {
+			return v, err
+		}
+		return Val{}, c.err(at, "identifier %s (not a local variable, parameter, constant or read-only *big.Int variable of package %s)", name, p.Name)
 	}
 	if ci.Type == "" {
 		if ci.Val.Kind() != constant.Int && ci.Val.Kind() != constant.Float {
@@ -673,22 +711,69 @@ func (c *fnCtx) callFunc(p *Pkg, d *ast.FuncDecl, recv *Val, x *ast.CallExpr, e 
 	if sig.wrap {
 		return Val{}, c.err(x, "call of %s, which can panic or return an error, inside an expression", d.Name.Name)
 	}
-	kinds := sig.params
-	head := ""
-	if recv != nil {
-		if len(kinds) == 0 || kinds[0].Base != recv.K.Base {
-			return Val{}, c.err(x, "receiver of kind %s for %s", recv.K.Base, d.Name.Name)
-		}
-		head = " " + atom(recv.S)
-		kinds = kinds[1:]
-	} else if d.Recv != nil {
-		return Val{}, c.err(x, "method expression")
+	if sig.result.Base == "tuple" {
+		return Val{}, c.err(x, "call of %s, which has several results, inside an expression", d.Name.Name)
 	}
-	as, err := c.args(x.Args, kinds, e, x)
+	head, as, err := c.calleeArgs(sig, d, recv, x, e)
 	if err != nil {
 		return Val{}, err
 	}
 	return Val{S: "(" + sig.name + head + as + ")", K: sig.result}, nil
+}
+
+// calleeArgs renders the arguments of a call of a translated function of the module, parameter by parameter:
+// values are coerced, contexts and loggers are dropped, an interface that is an oracle carrier is passed as its
+// oracle functions.
+func (c *fnCtx) calleeArgs(sig *fnSig, d *ast.FuncDecl, recv *Val, x *ast.CallExpr, e *env) (string, string, error) {
+	groups := sig.groups
+	head := ""
+	if recv != nil {
+		if len(groups) == 0 || groups[0].how != "value" || groups[0].kind.Base != recv.K.Base {
+			return "", "", c.err(x, "receiver of kind %s for %s", recv.K.Base, d.Name.Name)
+		}
+		head = " " + atom(recv.S)
+		groups = groups[1:]
+	} else if d.Recv != nil {
+		return "", "", c.err(x, "method expression")
+	}
+	if d.Type.TypeParams != nil {
+		return "", "", c.err(x, "call of the generic function %s", d.Name.Name)
+	}
+	if len(groups) != len(x.Args) {
+		return "", "", c.err(x, "call with %d arguments to a function of %d parameters", len(x.Args), len(groups))
+	}
+	out := ""
+	c.noMut++
+	defer func() { c.noMut-- }()
+	for i, a := range x.Args {
+		g := groups[i]
+		switch g.how {
+		case "none":
+			continue
+		case "value":
+			v, err := c.exprKind(a, e, g.kind)
+			if err != nil {
+				return "", "", err
+			}
+			out += " " + atom(v.S)
+		case "oracle":
+			p := selPath(a)
+			cv, _, ok := e.lookup(p)
+			if p == "" || !ok || cv.kind.Base != "oracle" || cv.kind.Named.Name != g.typ {
+				return "", "", c.err(a, "argument for the interface parameter of %s is not an oracle carrier of type %s", d.Name.Name, g.typ)
+			}
+			for _, m := range g.methods {
+				fv, _, ok := e.lookup(p + "." + m)
+				if !ok {
+					return "", "", c.err(a, "oracle %s.%s is not available here", p, m)
+				}
+				out += " " + fv.coq
+			}
+		default:
+			return "", "", c.err(a, "struct argument for %s", d.Name.Name)
+		}
+	}
+	return head, out, nil
 }
 
 // convert: T(x) for a type T of kind k.
@@ -886,6 +971,9 @@ func (c *fnCtx) bigMethod(x *ast.CallExpr, f *ast.SelectorExpr, recv Val, e *env
 		return Val{S: val, K: bigK}, nil // the receiver is a temporary: nobody else sees the store
 	}
 	// the receiver is a variable: the store is visible through it (and through every alias of it)
+	if strings.HasPrefix(recv.Alias, "\x00pkgvar:") {
+		return Val{}, c.err(x, "big.Int.%s stores into the package-level variable %s", name, recv.Alias[len("\x00pkgvar:"):])
+	}
 	v, _, ok := e.lookup(recv.Alias)
 	if !ok {
 		return Val{}, c.err(x, "internal: unknown receiver %s", recv.Alias)
